@@ -91,7 +91,10 @@ def run(c, replay):
             elif corr_bad is None:
                 corr_bad = dict(kind="correspondence", driver="flag handshake replay", divergence=div, program=text, config=desc, stderr=se[-300:])
     # ---- (2) free-running and LP-level runs: order-robust lifetime oracle + delivered set
-    progs, runs = C.campaign(c, ctx, r, 5 if c.tier == "quick" else 60, S.mask("MSG_ALLOC", "MSG_FREE"), c.tier, variants=("pred",), extra_cfgs=[(3, 1, 0)])
+    # legal preemptions between the extraction of a message and the marking of its flag word (scheduling point 30), and in the middle of the
+    # straggler test (33): a sender's cancellation lands while the receiver holds the message
+    progs, runs = C.campaign(c, ctx, r, 6 if c.tier == "quick" else 60, S.mask("MSG_ALLOC", "MSG_FREE"), c.tier, variants=("pred",), extra_cfgs=[(3, 1, 0), (4, 2, 20)],
+                             delays=(None, "30,-1,300,3", "30,-1,1500,6;33,-1,200,5", "30,-1,100,2"))
     lpruns = C.lp_campaign(c, ctx, r, 8 if c.tier == "quick" else 120, S.mask("MSG_ALLOC", "MSG_FREE"))
     wcov = C.worker_report(c, lpruns)     # ties the worker-model theorems (C06_worker_exactly_once, ..._finds_its_message) to process.c
     runs = runs + lpruns
